@@ -9,7 +9,7 @@ ID = "C06"
 LEVEL = "exploration"
 EXHAUSTIVE_GRID = True
 RULE = ("Grid, enumerated exhaustively on every run: destination kind {regular file, empty dir, "
-        "non-empty dir, symlink->file, symlink->dir, dangling symlink, absent} x trashed entry kind "
+        "non-empty dir, symlink->file, symlink->dir, dangling symlink, absent, set-uid file, set-gid dir, fifo} x trashed entry kind "
         "{file, empty, tree, symlink->file, dangling symlink} x --overwrite on/off x selection "
         "{single index, two indices conflict-first, two indices conflict-last, two entries with the "
         "SAME original location selected together - with the parent directory present or "
@@ -23,7 +23,8 @@ RULE = ("Grid, enumerated exhaustively on every run: destination kind {regular f
         "by (dest kind, entry kind, overwrite, selection, trash-dir kind, name class).")
 ASSUMPTIONS = ["with --overwrite and a directory at the destination only the no-loss frame is asserted"]
 
-DESTS = ["file", "dir_empty", "dir_nonempty", "link_file", "link_dir", "link_dangling", "absent"]
+DESTS = ["file", "dir_empty", "dir_nonempty", "link_file", "link_dir", "link_dangling", "absent",
+         "file_setuid", "dir_setgid", "fifo"]
 KINDS = ["file", "empty", "tree", "link_file", "link_dangling"]
 SELS = ["single", "multi_conflict_first", "multi_conflict_last", "multi_same_dest",
         "multi_same_dest_parent_missing"]
@@ -103,6 +104,13 @@ def run_case(case):
     d = case["dest"]
     if d == "file":
         tw.nodes.append({"p": dest, "t": "f", "c": "existing", "m": 0o604})
+    elif d == "file_setuid":      # special mode bits: still just a file / a directory in the way
+        tw.nodes.append({"p": dest, "t": "f", "c": "existing", "m": 0o4755})
+    elif d == "dir_setgid":
+        tw.nodes.append({"p": dest + "/precious", "t": "f", "c": "precious"})
+        tw.nodes.append({"p": dest, "t": "d", "m": 0o2775})
+    elif d == "fifo":
+        tw.nodes.append({"p": dest, "t": "p", "m": 0o644})
     elif d == "dir_empty":
         tw.nodes.append({"p": dest, "t": "d", "m": 0o751})
     elif d == "dir_nonempty":
